@@ -5,6 +5,7 @@ CONSTANTS
   Direct = TRUE
   Keep <- KeepAll
   NLoads = 1
+  Abandon = TRUE
   Toggle = TRUE
   RemoveDeletesEntry = FALSE
   VersionGuard = TRUE
